@@ -272,6 +272,7 @@ func init() {
 	register("C08", &propDef{
 		Rules: []ruleDef{
 			{"C08.layout", ruleRecordLayout, ""},
+			{"C08.record-writers", ruleRecordWriters, ""},
 			{"C08.gates", ruleC08Gates, ""},
 			{"C08.open-order", ruleOpenOrder, ""},
 			{"C08.logger-non-nil", ruleLoggerNonNil, ""},
@@ -288,6 +289,8 @@ func init() {
 			{"C18.header", ruleC18Header, ""},
 			{"C18.bucket", ruleC18Bucket, ""},
 			{"C18.record", ruleRecordLayout, ""},
+			{"C18.record-writers", ruleRecordWriters, ""},
+			{"C18.seal-after-replay", ruleC04SealAfterReplay, ""},
 			{"C18.names", ruleC18Names, ""},
 			{"C18.gob", ruleC18Gob, ""},
 			{"C18.name-families", ruleC15NameFamilies, ""},
